@@ -234,6 +234,17 @@ WITNESSES = [
     ("default-bytes", rec("R", [fld("x", "int")]), rec("R", [fld("x", "int"), fld("b", "bytes", default="ÿ")]), {"x": 1}),
     ("default-int-for-float", rec("R", [fld("x", "int")]), rec("R", [fld("x", "int"), fld("f", "float", default=3)]), {"x": 1}),
     ("default-null-union", rec("R", [fld("x", "int")]), rec("R", [fld("x", "int"), fld("n", ["null", "int"], default=None)]), {"x": 1}),
+    ("default-union-nonfirst-bytes", rec("R", [fld("x", "int")]), rec("R", [fld("x", "int"), fld("b", ["null", "bytes"], default="ÿ")]), {"x": 1}),
+    ("default-union-nonfirst-fixed", rec("R", [fld("x", "int")]),
+     rec("R", [fld("x", "int"), fld("b", ["null", {"type": "fixed", "name": "DF", "size": 2}], default="\u0001þ")]), {"x": 1}),
+    ("default-union-nonfirst-record", rec("R", [fld("x", "int")]),
+     rec("R", [fld("x", "int"), fld("b", ["null", rec("DR", [fld("a", "float", default=2), fld("b", "bytes")])], default={"b": "ÿ"})]), {"x": 1}),
+    ("default-union-nonfirst-array", rec("R", [fld("x", "int")]),
+     rec("R", [fld("x", "int"), fld("b", ["int", {"type": "array", "items": "bytes"}], default=["ÿ", ""])]), {"x": 1}),
+    ("default-union-nonfirst-map", rec("R", [fld("x", "int")]),
+     rec("R", [fld("x", "int"), fld("b", ["null", {"type": "map", "values": {"type": "fixed", "name": "DF2", "size": 1}}], default={"k": "þ"})]), {"x": 1}),
+    ("default-union-nonfirst-double", rec("R", [fld("x", "int")]), rec("R", [fld("x", "int"), fld("b", ["null", "double"], default=3)]), {"x": 1}),
+    ("default-union-first-fits", rec("R", [fld("x", "int")]), rec("R", [fld("x", "int"), fld("b", ["string", "bytes"], default="ÿ")]), {"x": 1}),
     ("default-missing", rec("R", [fld("x", "int")]), rec("R", [fld("x", "int"), fld("n", "int")]), {"x": 1}),
     ("same-unqualified-in-union", [rec("a.R", [fld("x", "int")]), rec("b.R", [fld("y", "string")])],
      [rec("a.R", [fld("x", "int")]), rec("b.R", [fld("y", "string")])], {"y": "hello"}),
